@@ -247,7 +247,11 @@ def render_body(k, part, rot):
         first = 'x%d = p(%d%s)' % (k, k, (', ' + o1) if b == 'praise' else '')
         forms = [[[first], ['raise %s(%r)' % (cls[0], msg)]],
                  [[first], ['z%d = xdvhelp.boom(%s(%r))' % (k, cls[0], msg)]],
-                 [['z%d = rz(%d, %s(%r)%s)' % (k, k, cls[0], msg, (', ' + o1) if b == 'praise' else '')]]]
+                 [['z%d = rz(%d, %s(%r)%s)' % (k, k, cls[0], msg, (', ' + o1) if b == 'praise' else '')]],
+                 # the raising line stands inside a try statement whose clean-up / non-matching handler runs afterwards: the
+                 # failing line is still the line that raised
+                 [[first], ['try:', '    raise %s(%r)' % (cls[0], msg), 'finally:', '    y%d = 0' % k]],
+                 [[first], ['try:', '    z%d = xdvhelp.boom(%s(%r))' % (k, cls[0], msg), 'except ZeroDivisionError:', '    y%d = 0' % k]]]
         if single:
             forms = [f for f in forms if len(f) == 1]
         return forms[(rot // 2) % len(forms)]
@@ -398,8 +402,13 @@ def render_program(prog, wants, rot, indent=0):
         want_at = len(lines)
         wl = render_want(k, part, wants[idx], prog, r)
         lines += wl
-        infos.append({'src_at': src_at, 'nsrc': len(src), 'want_at': want_at, 'nwant': len(wl),
-                      'last_stmt_at': src_at + len(src) - (len(stmts[-1]) if stmts else 0)})
+        last_at = src_at + len(src) - (len(stmts[-1]) if stmts else 0)
+        fail_at = last_at
+        for li in range(last_at, src_at + len(src)):            # the line of the last statement that raises (when it is an inner line)
+            if any(tok in src[li - src_at] for tok in ('raise ', '.boom(', 'rz(', 'rze(', 'hh(')):
+                fail_at = li
+                break
+        infos.append({'src_at': src_at, 'nsrc': len(src), 'want_at': want_at, 'nwant': len(wl), 'last_stmt_at': last_at, 'fail_at': fail_at})
         prev = part
     pad = ' ' * indent
     starts = infos
